@@ -211,6 +211,16 @@ def findIdx (v : Val) : List Val → Option Nat
   | [] => Option.none
   | x :: xs => if pyEq x v then some 0 else (findIdx v xs).map (· + 1)
 
+/-- Bound of `list.index(x, start, stop)`: negative values count from the end, clamped at 0. -/
+def clampIdx (n : Nat) (i : Int) : Nat :=
+  if i < 0 then (if i + n < 0 then 0 else (i + n).toNat) else i.toNat
+
+/-- `list.index(v, start, stop)`: first position in `[start, stop)` (after clamping) holding `v`. -/
+def indexIn (xs : List Val) (v : Val) (start stop : Int) : Option Nat :=
+  let a := clampIdx xs.length start
+  let b := clampIdx xs.length stop
+  (findIdx v ((xs.take b).drop a)).map (fun j => a + j)
+
 def countEq (v : Val) (xs : List Val) : Nat := (xs.filter (fun x => pyEq x v)).length
 
 def purge (xs : List Val) : List Val := xs.filter (fun x => !x.isMissing)
@@ -285,6 +295,7 @@ def pySort (xs : List Val) (rev : Bool) (key : SortKey) : Except Err (List Val) 
 
 inductive LOp where
   | get (i : Int) | getSlice (s : Slice) | len | contains (v : Val) | index (v : Val) | count (v : Val)
+  | indexIn (v : Val) (start stop : Int)
   | getBad | setBad | delBad
   | set (i : Int) (v : Val) | setSlice (s : Slice) (vs : List Val) | del (i : Int) | delSlice (s : Slice)
   | append (v : Val) | insert (i : Int) (v : Val) | extend (vs : List Val)
@@ -412,6 +423,7 @@ def specL (xs : List Val) (st : LStep) : LOut :=
   | .len => ⟨xs, .ok (.int xs.length)⟩
   | .contains v => ⟨xs, .ok (.bool (findIdx v xs).isSome)⟩
   | .index v => ⟨xs, match findIdx v xs with | some j => .ok (.int j) | Option.none => .error .value⟩
+  | .indexIn v a b => ⟨xs, match indexIn xs v a b with | some j => .ok (.int j) | Option.none => .error .value⟩
   | .count v => ⟨xs, .ok (.int (countEq v xs))⟩
   | .getBad => fail xs .type
   | .setBad => fail xs .type
@@ -554,6 +566,7 @@ def implL (xs : List Val) (st : LStep) : LOut :=
   | .len => ⟨xs, .ok (.int xs.length)⟩
   | .contains v => ⟨xs, .ok (.bool (findIdx v xs).isSome)⟩          -- builtin `list.__contains__`
   | .index v => ⟨xs, match findIdx v xs with | some j => .ok (.int j) | Option.none => .error .value⟩
+  | .indexIn v a b => ⟨xs, match indexIn xs v a b with | some j => .ok (.int j) | Option.none => .error .value⟩
   | .count v => ⟨xs, .ok (.int (countEq v xs))⟩
   | .getBad => fail xs .type
   | .setBad => fail xs .type
@@ -667,8 +680,8 @@ def Key.toVal : Key → Val
 inductive DOp where
   | get (k : Key) | getD (k : Key) (d : Val) | contains (k : Key) | len
   | set (k : Key) (v : Val) | del (k : Key) | pop (k : Key) (d : Option Val) | popitem | clear
-  | setdefault (k : Key) (d : Val) | update (pairs : List (Key × Val)) | copy
-  | rebind (pairs : List (Key × Val))
+  | setdefault (k : Key) (d : Val) | update (pairs kw : List (Key × Val)) | copy
+  | rebind (pairs kw : List (Key × Val))
   deriving Repr, Inhabited
 
 structure DStep where
@@ -717,10 +730,11 @@ def specD (kvs : List (Key × Val)) (st : DStep) : DOut :=
     match lookupKey k kvs with
     | some v => ⟨kvs, .ok v⟩
     | Option.none => ⟨PyDict.assign kvs k d, .ok d⟩
-  | .update pairs => ⟨PyDict.assignAll kvs pairs, .ok .none⟩
+  -- `d.update(other, **kw)`: the entries of `other` in order, then the keyword arguments in order
+  | .update pairs kw => ⟨PyDict.assignAll kvs (pairs ++ kw), .ok .none⟩
   | .copy => ⟨kvs, .ok (.dict kvs)⟩
-  | .rebind pairs =>
-    if pairs.isEmpty then ⟨kvs, .error .value⟩ else ⟨PyDict.assignAll kvs pairs, .ok .none⟩
+  | .rebind pairs kw =>
+    if (pairs ++ kw).isEmpty then ⟨kvs, .error .value⟩ else ⟨PyDict.assignAll kvs (pairs ++ kw), .ok .none⟩
 
 namespace PgDict
 
@@ -731,6 +745,12 @@ def setItemRaw (kvs : List (Key × Val)) (k : Key) (v : Val) : List (Key × Val)
     -- `if key in self: super().__delitem__(key) … else: return None`
     if hasKey kvs k then (dictErase kvs k, true) else (kvs, false)
   else (dictSet kvs k (conv v), true)      -- `super().__setitem__(key, self._formalized_value(...))`
+
+/-- `updates = dict(other); updates.update(kwargs)`: the call's arguments are first merged into one
+plain dict (a repeated key keeps its first position and takes its last value; `MISSING` is an
+ordinary value here). -/
+def mergePairs (ps : List (Key × Val)) : List (Key × Val) :=
+  ps.foldl (fun acc p => dictSet acc p.1 p.2) []
 
 def setAll (kvs : List (Key × Val)) : List (Key × Val) → List (Key × Val)
   | [] => kvs
@@ -794,10 +814,12 @@ def implD (kvs : List (Key × Val)) (st : DStep) : DOut :=
     --  if value == MISSING: self[key] = default; value = default; return value`
     let value := if hasKey kvs k then (lookupKey k kvs).getD .missing else .missing
     if value.isMissing then ⟨(setItemRaw kvs k d).1, .ok d⟩ else ⟨kvs, .ok value⟩
-  | .update pairs => ⟨setAll kvs pairs, .ok .none⟩            -- `update` → `rebind(KeyPath(k) …)` (patched)
+  -- `update`: merge `other` and `kwargs`, then `rebind(KeyPath(k) …)` entry by entry
+  | .update pairs kw => ⟨setAll kvs (mergePairs (pairs ++ kw)), .ok .none⟩
   | .copy => ⟨kvs, .ok (.dict (cloneKvs kvs))⟩                -- `copy` → `sym_clone(deep=False)`
-  | .rebind pairs =>
-    if pairs.isEmpty then ⟨kvs, .error .value⟩ else ⟨setAll kvs pairs, .ok .none⟩
+  | .rebind pairs kw =>
+    -- `path_value_pairs.update(kwargs)`, then one entry at a time
+    if (pairs ++ kw).isEmpty then ⟨kvs, .error .value⟩ else ⟨setAll kvs (mergePairs (pairs ++ kw)), .ok .none⟩
 
 /-! ## Histories -/
 
